@@ -4,22 +4,79 @@ From Coq Require Import ZArith List.
 From Furax Require Import Model.Config Lemmas.ConfigL.
 Import ListNotations.
 
-(* Leaving blocks, normally or by exception, restores exactly what was active before, at any depth. *)
-Theorem restore : forall s h, well_nested h ->
+(* The event language separates BUILDING a Config object (Build k: Config.__init__ under the active
+   configuration; the object is kept as the next preset), ENTERING one (EnterP i: __enter__ of preset i,
+   at any later point, at any depth, any number of times) and the inline `with Config(k)` (Enter k: both
+   at once).  A history is well nested from np presets (track np) when every exit has a matching enter
+   and every EnterP refers to an object that has been built.
+
+   Leaving blocks, normally or by exception, restores exactly what was active before, at any depth,
+   whether the blocks were opened inline or by entering objects built elsewhere. *)
+Theorem restore : forall s h, well_nested (length (presets s)) h ->
   cur (final s h) = cur s /\ stack (final s h) = stack s.
 Proof. exact restore_l. Qed.
 Print Assumptions restore.
 
-(* After any prefix whose open blocks are ks (innermost first), the active configuration is the
-   starting one overridden by the enclosing blocks from the outermost to the innermost. *)
-Theorem innermost_wins : forall s h ks, track h [] = Some ks ->
-  cur (final s h) = fold_left replace (rev ks) (cur s).
+(* After any prefix whose open blocks are ks (innermost first), the active configuration is `active`:
+   an inline block overrides the configuration around it, a preset block makes the preset's own
+   instance active. *)
+Theorem innermost_wins : forall s h ks, track (length (presets s)) h [] = Some ks ->
+  cur (final s h) = active (presets (final s h)) (cur s) ks.
 Proof. exact innermost_l. Qed.
 Print Assumptions innermost_wins.
+(* ... which for inline blocks only is the starting configuration overridden by the enclosing
+   blocks from the outermost to the innermost (outer settings inherited, named settings overridden) *)
+Theorem inline_blocks_override : forall ps base ks,
+  active ps base (map BKw ks) = fold_left replace (rev ks) base.
+Proof. exact active_kw_l. Qed.
 
-Theorem ends_with_defaults : forall h, well_nested h -> cur (final init h) = default_cfg.
+Theorem ends_with_defaults : forall h, well_nested 0 h -> cur (final init h) = default_cfg.
 Proof. exact ends_with_defaults_l. Qed.
 Print Assumptions ends_with_defaults.
+
+(* A Config object holds replace(configuration active when it was BUILT, kwargs), whatever happens
+   afterwards. *)
+Theorem preset_holds_build_time_configuration : forall s h1 k h2,
+  nth_error (presets (final s (h1 ++ Build k :: h2))) (length (presets (final s h1)))
+  = Some (replace (cur (final s h1)) k).
+Proof. exact preset_built_l. Qed.
+Print Assumptions preset_holds_build_time_configuration.
+
+(* Entering preset i after ANY history h makes its instance active; it is active again whenever the
+   blocks opened inside (h' well nested) are closed; leaving the block - normally or by an exception -
+   restores the configuration that was active when the block was ENTERED (cur (final s h)), wherever
+   and under whatever configuration the object was BUILT, however often it has been entered before. *)
+Theorem preset_block_scopes_and_restores_enter_time : forall s h i c h' x,
+  nth_error (presets (final s h)) i = Some c -> (x = Exit \/ x = ExitExc) ->
+  well_nested (length (presets (final s h))) h' ->
+  cur (final s (h ++ [EnterP i])) = c /\
+  cur (final s (h ++ EnterP i :: h')) = c /\
+  cur (final s (h ++ EnterP i :: h' ++ [x])) = cur (final s h) /\
+  stack (final s (h ++ EnterP i :: h' ++ [x])) = stack (final s h).
+Proof. exact enter_preset_l. Qed.
+Print Assumptions preset_block_scopes_and_restores_enter_time.
+(* RE-ENTRY.  preset_block_scopes_and_restores_enter_time holds after ANY history h - in particular one in
+   which the block of preset i itself is still open: the stack discipline does not care whether two frames
+   come from the same Config object (with p: with p: ..., at any distance).  Spelled out for the direct case:
+   the inner exit gives back the preset's instance, the outer exit the configuration active before the
+   outer enter.  [Code: this needs the tokens of the open blocks to be kept per CONTEXT (fixes/
+   C19-config-reentrant.diff); with one token slot per Config object the outer exit raises.] *)
+Theorem reentered_preset_block : forall s h i c x y,
+  nth_error (presets (final s h)) i = Some c -> (x = Exit \/ x = ExitExc) -> (y = Exit \/ y = ExitExc) ->
+  cur (final s (h ++ [EnterP i; EnterP i])) = c /\
+  cur (final s (h ++ [EnterP i; EnterP i; x])) = c /\
+  cur (final s (h ++ [EnterP i; EnterP i; x; y])) = cur (final s h) /\
+  stack (final s (h ++ [EnterP i; EnterP i; x; y])) = stack (final s h).
+Proof. exact reenter_l. Qed.
+Print Assumptions reentered_preset_block.
+Theorem inline_block_scopes_and_restores_enter_time : forall s h k h' x,
+  (x = Exit \/ x = ExitExc) -> well_nested (length (presets (final s h))) h' ->
+  cur (final s (h ++ [Enter k])) = replace (cur (final s h)) k /\
+  cur (final s (h ++ Enter k :: h')) = replace (cur (final s h)) k /\
+  cur (final s (h ++ Enter k :: h' ++ [x])) = cur (final s h) /\
+  stack (final s (h ++ Enter k :: h' ++ [x])) = stack (final s h).
+Proof. exact enter_inline_l. Qed.
+Print Assumptions inline_block_scopes_and_restores_enter_time.
 
 Theorem reads_observe_active : forall s h,
   observe s (h ++ [Read]) = observe s h ++ [Some (cur (final s h))].
@@ -33,6 +90,15 @@ Theorem capture : forall s h1 h2,
   observe s (h1 ++ NewInverse :: h2) ++ [Some (cur (final s h1))].
 Proof. exact capture_l. Qed.
 Print Assumptions capture.
+
+(* ... in particular one created inside a preset block keeps the preset's instance *)
+Theorem capture_inside_preset_block : forall s h i c h2,
+  nth_error (presets (final s h)) i = Some c ->
+  let j := length (invs (final s h)) in
+  observe s (h ++ EnterP i :: NewInverse :: h2 ++ [ApplyInverse j]) =
+  observe s (h ++ EnterP i :: NewInverse :: h2) ++ [Some c].
+Proof. exact capture_in_preset_l. Qed.
+Print Assumptions capture_inside_preset_block.
 
 (* ... and what is kept is what is USED: the effect of applying the inverse (exception or returned
    value, statistics, callback that runs - Model.Config.mv) is the effect of the configuration active
@@ -105,7 +171,7 @@ Example derived_example :
   let h := [Enter [(SOptions, 2%Z)]; NewInverse; Exit; Enter [(SCallback, 3%Z)]; Derive DReduce 0; Exit;
             Derive DRoundTrip 1; Enter [(SSolver, 1%Z)]; Derive DInvInv 2; Exit; NewInverse;
             ApplyVia (RJitArg 0) 4; ApplyVia (RJitArg 0) 2; ApplyVia RMatrix 3; ApplyVia (RJitArg 0) 0] in
-  well_nested h /\ prov h = [1; 1; 1; 8; 10]%nat /\
+  well_nested 0 h /\ prov h = [1; 1; 1; 8; 10]%nat /\
   observe init h = [None; None; None; None; None; None; None; None; None; None; None;
                     Some default_cfg; Some (mkCfg 0 0 2 0); Some (mkCfg 1 0 0 0); Some (mkCfg 0 0 2 0)].
 Proof. repeat split; reflexivity. Qed.
@@ -153,12 +219,18 @@ Theorem forked_context_is_a_copy : forall g t t', cur (fst (gstep g (Fork t t'))
 Proof. exact fork_copy_l. Qed.
 Theorem new_thread_has_defaults : forall g t, cur (fst (gstep g (Spawn t)) t) = default_cfg.
 Proof. exact spawn_default_l. Qed.
+(* a new thread that is handed Config objects built by another thread still starts from the defaults,
+   and gets exactly those objects *)
+Theorem handed_thread_has_defaults : forall g t t',
+  cur (fst (gstep g (Hand t t')) t') = default_cfg /\ stack (fst (gstep g (Hand t t')) t') = [] /\
+  presets (fst (gstep g (Hand t t')) t') = presets (g t).
+Proof. exact hand_default_l. Qed.
 
 (* non-vacuity: a nested history with an exceptional exit is well nested and observable *)
 Example history_example :
   let h := [Enter [(SThrow, 1%Z)]; Enter [(SOptions, 2%Z)]; Read; NewInverse; ExitExc; Read; Exit;
             ApplyInverse 0; Read] in
-  well_nested h /\
+  well_nested 0 h /\
   observe init h = [None; None; Some (mkCfg 0 1 2 0); None; None; Some (mkCfg 0 1 0 0); None;
                     Some (mkCfg 0 1 2 0); Some default_cfg].
 Proof. split; reflexivity. Qed.
@@ -173,4 +245,30 @@ Example effect_example :
   effects fails (observe init [Enter [(SSolver, 1); (SCallback, 2)]%Z; NewInverse; Exit;
                                Enter [(SThrow, 1); (SCallback, 3)]%Z; ApplyInverse 0; Exit]) =
     [None; None; None; None; Some (Returned 1 0 2); None].
+Proof. split; reflexivity. Qed.
+
+(* non-vacuity of the preset layer: p0 = Config(callback=3) is built under the defaults, p1 = Config(options=2)
+   inside `with Config(throw=1)`; p0 is entered inside a solver=1 block (its instance does NOT inherit solver 1,
+   and leaving it restores solver 1 - not the defaults active when p0 was built); p1 is entered after every block
+   is closed (it still holds throw=1) and p0 again inside it, left by an exception; an inverse created in p0's
+   block keeps p0's instance *)
+Example preset_example :
+  let h := [Build [(SCallback, 3%Z)]; Enter [(SThrow, 1%Z)]; Build [(SOptions, 2%Z)]; Exit;
+            Enter [(SSolver, 1%Z)]; EnterP 0; Read; NewInverse; Exit; Read; Exit;
+            EnterP 1; Read; EnterP 0; Read; ExitExc; Read; Exit; Read; ApplyInverse 0] in
+  well_nested 0 h /\
+  observe init h = [None; None; None; None; None; None; Some (mkCfg 0 0 0 3); None; None; Some (mkCfg 1 0 0 0); None;
+                    None; Some (mkCfg 0 1 2 0); None; Some (mkCfg 0 0 0 3); None; Some (mkCfg 0 1 2 0); None;
+                    Some default_cfg; Some (mkCfg 0 0 0 3)].
+Proof. split; reflexivity. Qed.
+
+(* non-vacuity of re-entry: p0 = Config(throw=1) entered inside a solver=1 block, entered again while open
+   (directly, and once more under an inline options=2 block nested in it); every exit peels one frame *)
+Example reentry_example :
+  let h := [Build [(SThrow, 1%Z)]; Enter [(SSolver, 1%Z)]; EnterP 0; EnterP 0; Read; Enter [(SOptions, 2%Z)]; Read;
+            EnterP 0; Read; ExitExc; Read; Exit; Read; Exit; Read; Exit; Read; Exit; Read] in
+  well_nested 0 h /\
+  observe init h = [None; None; None; None; Some (mkCfg 0 1 0 0); None; Some (mkCfg 0 1 2 0); None; Some (mkCfg 0 1 0 0);
+                    None; Some (mkCfg 0 1 2 0); None; Some (mkCfg 0 1 0 0); None; Some (mkCfg 0 1 0 0); None;
+                    Some (mkCfg 1 0 0 0); None; Some default_cfg].
 Proof. split; reflexivity. Qed.
